@@ -33,9 +33,14 @@ def otherTerm (pi : Rat) (inv : Bool) (alt : Nat) (k : Kind) (a b : Rat) : Optio
   | .one => some [⟨1, 0, 0, .delta 0, 1, 0⟩]
   | .cpole 1 al =>
       -- `1/(c1 t + c0)`, c1 = j2πa, c0 = α + j2πb, s = 2πj/c1 = 1/a:  s·exp(c0·v·s)·Heaviside(−v)
+      -- pole at −c0/c1 = jα/(2πa) − b/a: imaginary part has the sign of Re(α)·a
       Gen.cpoleUsesSf.map fun useSf =>
         let v : Rat := if useSf && inv then -1 else 1
-        [⟨CQ.ofRat (1 / a), 0, v * b / a, .expu 0 (CQ.smul (1 / a) al), -v, 0⟩]
+        if Gen.cpoleThreeWay && al.re * a < 0 then
+          -- −s·exp(c0·v·s)·Heaviside(v)
+          [⟨CQ.ofRat (-1 / a), 0, v * b / a, .expu 0 (CQ.smul (-1 / a) al), v, 0⟩]
+        else
+          [⟨CQ.ofRat (1 / a), 0, v * b / a, .expu 0 (CQ.smul (1 / a) al), -v, 0⟩]
   | .expu 0 al =>
       -- `exp(c1 t + c0)·u(t)` branch needs the plain argument (otherwise similarity_shift fails: SymPy)
       if a == 1 && b == 0 then
@@ -54,7 +59,11 @@ def otherTerm (pi : Rat) (inv : Bool) (alt : Nat) (k : Kind) (a b : Rat) : Optio
         -- s = 2πj/a,  s·exp(b·v·s)·Heaviside(−v)
         Gen.cpoleUsesSf.map fun useSf =>
           let v : Rat := if useSf && inv then -1 else 1
-          [⟨⟨0, 2 * pi / a⟩, 0, v * b / a, .step, -v, 0⟩]
+          if Gen.cpoleThreeWay then
+            -- real pole: −(s/2)·exp(b·v·s)·sign(v)
+            [⟨⟨0, -pi / a⟩, 0, v * b / a, .sgn, v, 0⟩]
+          else
+            [⟨⟨0, 2 * pi / a⟩, 0, v * b / a, .step, -v, 0⟩]
   | .inv2 =>
       -- 1/(a t)² = (1/a²)·(1/t²); a shifted argument has no function to drive `similarity_shift`: SymPy
       if b == 0 then (lookup .inv2 alt).map fun e => smulE (CQ.ofRat (1 / (a * a))) (entryE pi inv e.terms) else none
